@@ -88,6 +88,9 @@ type cache struct {
 }
 
 func instanceOf(s gostatsd.Source) *gostatsd.Instance {
+	if s == sources[1] {
+		return &gostatsd.Instance{ID: "i-" + s} // an instance that has an id but no tags
+	}
 	return &gostatsd.Instance{ID: "i-" + s, Tags: gostatsd.Tags{"region:r", "inst:" + string(s)}}
 }
 
